@@ -26,7 +26,14 @@ type ModLoc struct {
 	Ghost    string
 }
 
+type Hint struct {
+	Where  string // "return" or "after"
+	Callee string
+	Clause Clause
+}
+
 type FuncSpec struct {
+	Hints      []Hint
 	Key        string // canonical function key
 	Pkg        string // short package path of the file
 	ParamNames []string
@@ -92,7 +99,7 @@ func loadContracts(files []string) (*Contracts, error) {
 	return cs, nil
 }
 
-var clauseKeywords = []string{"func", "assume", "spec", "lemma", "requires", "ensures", "panics", "modifies", "reads", "pure", "loop", "property", "inline", "noinline", "fresh", "opaque", "axiom", "package", "uninterp", "maypanic", "expectfail", "mode", "unroll"}
+var clauseKeywords = []string{"hint", "func", "assume", "spec", "lemma", "requires", "ensures", "panics", "modifies", "reads", "pure", "loop", "property", "inline", "noinline", "fresh", "opaque", "axiom", "package", "uninterp", "maypanic", "expectfail", "mode", "unroll"}
 
 func startsClause(s string) bool {
 	for _, k := range clauseKeywords {
@@ -368,6 +375,32 @@ func (cs *Contracts) loadFile(path string) error {
 				return fail(err)
 			}
 			cur.LoopInv[n] = append(cur.LoopInv[n], cl)
+		case "hint":
+			// hint return E | hint after <callee> E : an intermediate assertion (checked, then assumed)
+			if cur == nil {
+				return fail(fmt.Errorf("hint outside func"))
+			}
+			f := strings.SplitN(rest, " ", 2)
+			h := Hint{Where: f[0]}
+			body := ""
+			if len(f) > 1 {
+				body = f[1]
+			}
+			if h.Where == "after" {
+				g := strings.SplitN(strings.TrimSpace(body), " ", 2)
+				if len(g) < 2 {
+					return fail(fmt.Errorf("bad hint"))
+				}
+				h.Callee, body = g[0], g[1]
+			} else if h.Where != "return" {
+				return fail(fmt.Errorf("hint needs `return` or `after <callee>`"))
+			}
+			cl, err := mkClause(body, src)
+			if err != nil {
+				return fail(err)
+			}
+			h.Clause = cl
+			cur.Hints = append(cur.Hints, h)
 		case "property":
 			ps := strings.FieldsFunc(rest, func(r rune) bool { return r == ',' || r == ' ' })
 			if curLemma != nil {
